@@ -29,6 +29,8 @@ def _st(m):
         return "missed (strengthening in progress)"
     if "neighbour" in n:
         return "caught by a neighbouring property's check"
+    if n.startswith("correspondence only:"):
+        return "correspondence only (" + n.split(": ", 1)[1] + ")"
     if "correspondence only" in n:
         return "correspondence only at first, then an input is named"
     return "missed, then check strengthened"
